@@ -4067,10 +4067,10 @@ class PathSegment:
 
     def __iadd__(self, other):
         if isinstance(other, PathSegment):
-            path = Path(self, other)
+            path = Path(copy(self), copy(other))
             return path
         elif isinstance(other, str):
-            path = Path(self) + other
+            path = Path(copy(self)) + other
             return path
         return NotImplemented
 
